@@ -250,6 +250,12 @@ func shapes() []shape {
 		{"value-65535-bytes", index.Metadata{"k": strings.Repeat("v", 65535)}},
 		{"value-65536-bytes", index.Metadata{"k": strings.Repeat("v", 65536)}},
 		{"non-utf8", index.Metadata{"\xff\xfe": "\x00\x80\xc3"}},
+		// multi-byte text: the format counts bytes, a limit counted in characters would let these through
+		{"key-85-cjk-chars-255-bytes", index.Metadata{strings.Repeat("\u65e5", 85): "v"}},
+		{"key-86-cjk-chars-258-bytes", index.Metadata{strings.Repeat("\u65e5", 86): "v"}},
+		{"key-128-accented-chars-256-bytes", index.Metadata{strings.Repeat("\u00e9", 128): "v"}},
+		{"value-21845-cjk-chars-65535-bytes", index.Metadata{"k": strings.Repeat("\u65e5", 21845)}},
+		{"value-21846-cjk-chars-65538-bytes", index.Metadata{"k": strings.Repeat("\u65e5", 21846)}},
 	}
 }
 
